@@ -1,1 +1,1 @@
-reg("C18", "c18_filter.c", "asan")
+reg("C18", "c18_filter.c", "asan", ldflags=["-Wl,--wrap=malloc"])
